@@ -57,7 +57,8 @@ def corpus_cases():
     hub = ("iface", "IHub", None, [M("open%d" % i, [("out", "ILater%d" % i, None, "o")]) for i in range(6)] + [M("all", [("in", "ILater%d" % i, None, "p%d" % i) for i in range(6)])])
     out.append({"files": [{"path": "src/main.idl", "includes": [], "decls": [hub] + later}], "main": "src/main.idl", "idirs": ["inc"]})
     incs = [{"path": "inc/part%d.idl" % i, "includes": [], "decls": [("struct", "P%d" % i, [("uint64", 1, "v")]), ("iface", "IPart%d" % i, None, [M("get", [("out", "P%d" % i, None, "v")])])]} for i in range(7)]
-    main = {"path": "src/main.idl", "includes": ["part%d.idl" % i for i in (3, 0, 6, 2, 5, 1, 4)],
+    # (two of the files are included twice: the front end accepts that)
+    main = {"path": "src/main.idl", "includes": ["part%d.idl" % i for i in (3, 0, 6, 2, 3, 5, 1, 4, 0)],
             "decls": [("struct", "All", [("P%d" % i, 1, "p%d" % i) for i in range(7)]),
                       ("iface", "IAll", "IPart3", [M("every", [("in", "All", None, "a")] + [("in", "IPart%d" % i, None, "q%d" % i) for i in range(7)])])]}
     out.append({"files": [main] + incs, "main": "src/main.idl", "idirs": ["inc"]})
